@@ -48,6 +48,14 @@ var seqSort = &SeqCfg{
 		"CreateCollection": 0, "DropCollection": 0, "Save": 1, "ReplaceById": 1, "InsertOne": 1, "CreateByQuery": 0, "hostileBatchPct": 0}),
 }
 
+var seqSortBig = &SeqCfg{
+	Focus: "sort-big", Ops: [2]int{25, 40}, NColls: [2]int{1, 1}, InitDocs: []int{1100, 1600, 2300},
+	AuditEvery: [2]int{100, 200}, Queries: 0, Backends: []string{BBolt, BadgerMem, BBolt}, CritPct: 40, SortPct: 95, WinPct: 70,
+	W: weights(map[string]int{"FindAll": 100, "Derived": 15, "Count": 3, "CreateIndex": 3, "DropIndex": 2, "Insert": 0, "InsertOne": 1, "UpdateById": 2, "DeleteById": 2, "Update": 0, "UpdateFunc": 0, "Delete": 0,
+		"CreateCollection": 0, "DropCollection": 0, "Save": 0, "ReplaceById": 0, "CreateByQuery": 0, "Reopen": 0, "HasCollection": 0, "ListCollections": 0, "HasIndex": 0, "ListIndexes": 0, "FindById": 1, "hostileBatchPct": 0}),
+	ForceFields: map[string]gen.Profile{"x": {Kind: gen.PSmallInt}},
+}
+
 var seqDerived = &SeqCfg{
 	Focus: "derived", Ops: [2]int{30, 70}, NColls: [2]int{1, 3}, InitDocs: []int{0, 1, 5, 20, 50},
 	AuditEvery: [2]int{30, 60}, Queries: 1, Derived: true, Backends: allBackends, SortPct: 50, WinPct: 40,
@@ -119,13 +127,13 @@ func init() {
 		ID: "C08", Level: "exploration",
 		Rule: "collections with duplicate, absent, nil and mixed-type sort keys; 1-3 sort options in all direction spellings (0, 2, -3, ...), skip/limit over {-1,0,1,n-1,n,n+3,random}; the returned sort-key tuple sequence must equal the window of the model's fully sorted sequence (absent = nil, or absent before nil), members distinct, live, matching; unsorted windows must have length min(m,max(0,total-n)). A cell is <shape|plan|sort kind|window|index> with a non-empty, non-total answer.",
 		Assumptions: modelAssumptions,
-		Uses: []core.Use{{E: eSort, Quick: 200, Thorough: 12000}},
+		Uses: []core.Use{{E: eSort, Quick: 200, Thorough: 12000}, {E: seqEngine("seq-sort-big", seqSortBig), Quick: 8, Thorough: 200}},
 	})
 	core.Register(&core.PropSpec{
 		ID: "C09", Level: "exploration",
 		Rule: "for random queries in states reached by histories that include deletes of absent ids and failed operations: FindAll, Count, Exists, FindFirst and ForEach (full and stopping after 1, 2, k, all) run on the same handle and are compared with each other and the model; a structural fingerprint of the query object is compared before/after every API and builder call; the store event log must show no Set/Delete during reads. A cell <criteria?|sorted?|window?|plan|stop class> counts when FindAll had >= 2 documents.",
 		Assumptions: modelAssumptions,
-		Uses: []core.Use{{E: eDerived, Quick: 200, Thorough: 12000}},
+		Uses: []core.Use{{E: eDerived, Quick: 200, Thorough: 12000}, {E: seqEngine("seq-sort-big", seqSortBig), Quick: 4, Thorough: 100}},
 	})
 	core.Register(&core.PropSpec{
 		ID: "C12", Level: "exploration",
